@@ -538,6 +538,22 @@ pub fn run_replay(args: &[String]) -> i32 {
   let obs = eval(&prop, &doc["case"]);
   let clause = doc["clause"].as_str().unwrap_or("");
   let reproduced = obs.has_clause(clause);
+  // which known findings would this case be attributed to?
+  let mut attributed: Vec<String> = Vec::new();
+  for k in load_known("/verif/KNOWN_FINDINGS.txt") {
+    if k.property != prop_id {
+      continue;
+    }
+    for (c, d) in &obs.violations {
+      if k.clause.split('|').any(|x| x == c) {
+        if let Some(t) = props::trigger(&k.trigger) {
+          if t(&doc["case"], c, d) && !attributed.contains(&k.trigger) {
+            attributed.push(k.trigger.clone());
+          }
+        }
+      }
+    }
+  }
   println!(
     "{}",
     json!({
@@ -546,6 +562,7 @@ pub fn run_replay(args: &[String]) -> i32 {
       "reproduced": reproduced,
       "violations": obs.violations,
       "inconclusive": obs.inconclusive,
+      "known_finding_triggers_matching": attributed,
     })
   );
   if !obs.inconclusive.is_empty() {
